@@ -324,7 +324,7 @@ func TestC14(t *testing.T) {
 	}
 	excl.ArrayAlias = rec.KnownActive("KF-array-alias", false)
 	rec.ReplayTier()
-	check(rec, "config-random", scale(500, 30000), func(rt *rapid.T) {
+	check(rec, "config-random", scale(500, 50000), func(rt *rapid.T) {
 		c, labels := genC14(rt)
 		msg := c14Check(c)
 		nt := false
